@@ -388,7 +388,19 @@ def s10_generated(ctx):
         tri = [rng.random() < 0.25 for _ in cands]
         cases.append(("gstackval", t, m, o, geom, cands, along, tri))
         reqs.append(f"gstackval t={rat(t)} m={rat(m)} o={rat(o)} geom={wline(geom)} cands={wlines(cands)} along={int(along)} tri={','.join(str(int(b)) for b in tri)}")
+    # SharpCornerValidator.validation_method with scripted unit vectors / comparisons (vertex = its index)
+    for _ in range(budget(ctx.tier, 150, 2500)):
+        n = rng.randint(2, 6)
+        chord_nan = rng.random() < 0.08
+        nan = [rng.random() < 0.06 for _ in range(n - 1)]
+        avgok = [rng.random() < 0.85 for _ in range(n - 1)]
+        prevok = [rng.random() < 0.85 for _ in range(n - 1)]
+        cases.append(("gsharp", n, chord_nan, nan, avgok, prevok))
+        b = lambda l: ",".join(str(int(x)) for x in l)  # noqa: E731
+        reqs.append(f"gsharp n={n} chordnan={int(chord_nan)} nan={b(nan)} avgok={b(avgok)} prevok={b(prevok)}")
     resps = ctx.gen.parallel(reqs)
+    import numpy as _np
+    orig_unit, orig_cmp = tv.create_unit_vector, tv.compare_unit_vector_orientation
     orig_swb, orig_tri = tv.segment_within_buffer, tv.split_to_determine_triangle_errors
     orig_split = tvu.split
     orig_ul = tv.is_underlapping
@@ -398,7 +410,22 @@ def s10_generated(ctx):
     try:
         for c, req, resp in zip(cases, reqs, resps):
             res.evaluations += 1
-            if c[0] == "gstackval":
+            if c[0] == "gsharp":
+                _, n, chord_nan, nan, avgok, prevok = c
+
+                def unit(a_, b_, _n=n, _cn=chord_nan, _nan=nan):
+                    i, j = int(round(a_.x)), int(round(b_.x))
+                    bad = _nan[i] if j == i + 1 else _cn
+                    return _np.array([_np.nan, _np.nan]) if bad else _np.array([float(i), float(j)])
+
+                def cmp_(v1, v2, thr, _a=avgok, _p=prevok):
+                    return _a[int(v2[0])] if thr == 1.0 else _p[int(v1[0])]
+
+                tv.create_unit_vector, tv.compare_unit_vector_orientation = unit, cmp_
+                ok = tv.SharpCornerValidator.validation_method(LineString([(float(i), 0.1 * i * i) for i in range(n)]), 1.0, 2.0)
+                want = f"ok={int(bool(ok))}"
+                res.nontrivial += int(not ok)
+            elif c[0] == "gstackval":
                 _, t, m, o, geom, cands, along, tri = c
                 c_ls = [LineString(x) for x in cands]
                 tv.segment_within_buffer = lambda ls_, mls_, _al=along, **_: bool(_al and not mls_.is_empty)
@@ -462,6 +489,7 @@ def s10_generated(ctx):
                 res.disagreements.append(Disagreement("S10-generated", {"stream": "S10-generated", "request": req}, resp.strip(), want, None,
                                                       "regenerated validator (Lean) and the Python method disagree: translator semantics wrong"))
     finally:
+        tv.create_unit_vector, tv.compare_unit_vector_orientation = orig_unit, orig_cmp
         tv.segment_within_buffer, tv.split_to_determine_triangle_errors = orig_swb, orig_tri
         tvu.split = orig_split
         tv.is_underlapping = orig_ul
